@@ -143,7 +143,15 @@ def finite(x):
 def unsafe_decimal(x):
     import decimal
     if isinstance(x, decimal.Decimal):
-        return x.is_finite() and abs(x) > 9007199254740991
+        if not x.is_finite():
+            return False
+        if abs(x) > 9007199254740991:
+            return True
+        try:
+            f = float(x)
+        except (OverflowError, ValueError):
+            return True
+        return (f == 0) != (x == 0) or f in (float("inf"), float("-inf"))    # beyond the range of a double: written as text as well
     if isinstance(x, dict):
         return any(unsafe_decimal(k) or unsafe_decimal(v) for k, v in x.items())
     if isinstance(x, (list, tuple, set, frozenset)):
